@@ -46,6 +46,12 @@ def classify(hist_lines, rel_idx, what):
         site = "query:" + toks[2]
     elif toks[0] == "obs":
         site = "obs:" + toks[2] + ":after:" + (last_op.split()[2] if last_op and last_op.startswith("op ") else (last_op or "?").split()[0])
+    elif toks[0] == "res":
+        site = "res:" + toks[2]
+        if "does not contain the argument" in what:
+            tags.append("result_not_an_enlargement")
+        if "result ∩ context" in what:
+            tags.append("meet_with_context_changed")
     elif toks[0] == "hint":
         site = "hint"
     elif toks[0] == "exc":
